@@ -3,7 +3,7 @@
 import json, os, re, subprocess, sys
 HERE = os.path.dirname(os.path.dirname(os.path.abspath(__file__)))
 EXTRA = {"C03-m2": ["C04"], "C04-m1": ["C14"], "C05-m1": ["C18"], "C07-m1": ["C08"], "C08-m2": ["C07"], "C16-m2": ["C04"],
-         "C07-r4m1": ["C14"], "C03-r4m1": ["C04"], "C12-r5m2": [], "C05-r6m2": ["C01"], "C06-r7m1": ["C01"]}
+         "C07-r4m1": ["C14"], "C03-r4m1": ["C04"], "C12-r5m2": [], "C05-r6m2": ["C01"], "C06-r7m1": ["C01"], "C16-r7m1": ["C15"]}
 only = sys.argv[1:]
 for d in sorted(os.listdir(os.path.join(HERE, "seeded"))):
     if only and d not in only:
